@@ -133,6 +133,22 @@ func candidates(c *Case) []*Case {
 			out = append(out, n)
 		}
 	}
+	// asynchronous delivery: deliver one more outcome synchronously
+	for k := 0; k < nslots; k++ {
+		n := cloneCase(c)
+		i := 0
+		done := false
+		walkWorld(n.World, func(slot **gqlgen.Outcome, parent *gqlgen.Outcome, idx int) {
+			if i == k && (*slot).Async {
+				(*slot).Async = false
+				done = true
+			}
+			i++
+		})
+		if done {
+			out = append(out, n)
+		}
+	}
 	if c.Doc == nil {
 		return out
 	}
